@@ -248,6 +248,10 @@ def canon(d):
             return "x:" + k + "{" + ",".join(sorted(canon(a) + ":" + canon(b) for a, b in p)) + "}"
         if k in X_ATTRS:
             return "x:" + k + "{" + ",".join(sorted(n + "=" + canon(v) for n, v in p)) + "}"
+        if k == "frac":
+            # Fraction(3, 3) IS Fraction(1, 1): the constructor normalises, two spellings of one value are one value
+            fr = fractions.Fraction(int(p[0]), int(p[1]))
+            return "x:frac:" + json.dumps([str(fr.numerator), str(fr.denominator)])
         return "x:" + k + ":" + json.dumps(p)
     return "d{" + ",".join(sorted(canon(k) + ":" + canon(v) for k, v in d[1])) + "}"
 
@@ -841,8 +845,11 @@ def oracle(ctx, joblib, res, descs, twins, salt):
         if len(cs) > 1:
             reps = sorted(cs.values(), key=lambda i: size(descs[i]))
             a = reps[0]
+            # the twin relation is a relation between VALUES: the same value may occur several times in the universe,
+            # and `cs` keeps only the first index of each
+            twin_values = {frozenset((canon(descs[x]), canon(descs[y]))) for x, y in twins.items()}
             for b in reps[1:]:
-                if twins.get(b) == a or twins.get(a) == b:
+                if frozenset((canon(descs[a]), canon(descs[b]))) in twin_values:
                     sig = "collision:fallback-keys-vs-their-own-digest-strings"
                 else:
                     sig = "collision:" + first_difference(descs[a], descs[b])
